@@ -15,12 +15,13 @@ every call expression in each `execute()` body, is it lexically inside a `try` w
                                      is absorbed by its guard, `toolExec` returns an envelope (never `.error`);
                                      conversely (`C20_escape_only_unguarded`) an escaping exception always comes
                                      from a stage whose guard does not absorb it;
-* `C20_F33_eject_json_raises`        the negation on the F33 witness: octave_eject(format=json) lets the
+* `C20_eject_json_raises_F52`        the negation on the F33 witness: octave_eject(format=json) lets the
                                      exception of its unguarded `json.dumps` stage escape.
 
 `_partial`: the full statement "`toolExec args` always returns an envelope" is **false today** — 38 stages
 are unguarded and 3 only narrowly guarded (`unguardedStages`), so totality rests on those stages being exception-free, which for
-`e_jsonDumps` is refuted on the real code (F33: a HolographicValue reaches json.dumps).
+`e_jsonDumps` is refuted on the real code (F33, fixed since; F52: an AST value inside a nested META block reaches
+json.dumps).
 -/
 import Octave.Lemmas.Tools
 import Octave.Lemmas.Guards
@@ -73,7 +74,7 @@ theorem C20_raise_sites : raiseSites = [("write", "Exception", true, "raise")] :
 /-- **C20_tools_total (partial).**  For every tool, all arguments and all stage outcomes: if each stage's raise
 (if any) is absorbed by the guard around it, the tool returns an envelope.
 Missing for the full statement: the unguarded stages (`unguardedStages`) must be shown exception-free on
-well-typed arguments; `e_jsonDumps` is not (F33). -/
+well-typed arguments; `e_jsonDumps` is not (F52; F33 until 45b8e9f). -/
 theorem C20_tools_total_partial (B : Builtins) (c : Call)
     (habs : ∀ s : Stage, s.guard.absorbs (c.raises s) = true) : ∃ e, toolExec B c = .ok e := by
   obtain ⟨t, dflt, hs, heq⟩ := toolExec_eq B c
@@ -121,19 +122,19 @@ def unguardedStages : List Stage := Stage.all.filter (fun s => s.guard != .exc)
 
 theorem unguardedStages_count : unguardedStages.length = 41 := by decide
 
-/-! ## F33: the negation on the witness -/
+/-! ## F33 / F52: the negation on the witness -/
 
-/-- Known-finding class KF_F33 on the abstract call: octave_eject with format = json whose `json.dumps`
-stage raises.  On the real code two input classes force that outcome today: the projected document holds a
-HolographicValue (F33), or META holds a nested block with a list / inline-map / holographic / literal-zone value
-(F52); the Python class predicates are `eject_json_holographic` and `eject_json_meta_nested_block`
+/-- Known-finding class on the abstract call: octave_eject with format = json whose `json.dumps` stage raises.
+On the real code two input classes forced that outcome: the projected document holds a HolographicValue (F33,
+**fixed** in /repo 45b8e9f), or META holds a nested block with a list / inline-map / holographic / literal-zone
+value (F52, open); the Python class predicates are `eject_json_holographic` and `eject_json_meta_nested_block`
 (tools/harness/tools_total.py). -/
-def KF_F33 (c : Call) : Prop :=
+def KF_eject_json_dumps (c : Call) : Prop :=
   ∃ a o, c = .eject a o ∧ a.hasContent = true ∧ a.format = .json ∧ o.raises .e_jsonDumps ≠ .no
 
-/-- `C20_tools_total` is false today: on the F33 witness the tool raises instead of returning. -/
-theorem C20_F33_eject_json_raises (B : Builtins) :
-    ∃ c, KF_F33 c ∧ (∀ s, s ≠ .e_jsonDumps → c.raises s = .no) ∧ toolExec B c = .error (.py .e_jsonDumps) := by
+/-- `C20_tools_total` is false today: when json.dumps raises (F52 inputs) the tool raises instead of returning. -/
+theorem C20_eject_json_raises_F52 (B : Builtins) :
+    ∃ c, KF_eject_json_dumps c ∧ (∀ s, s ≠ .e_jsonDumps → c.raises s = .no) ∧ toolExec B c = .error (.py .e_jsonDumps) := by
   refine ⟨.eject { format := .json } { raises := fun s => if s = .e_jsonDumps then .other else .no }, ?_, ?_, ?_⟩
   · exact ⟨_, _, rfl, rfl, rfl, by decide⟩
   · intro s hs; simp [Call.raises, hs]
